@@ -2,6 +2,7 @@ package vc
 
 import (
 	"fmt"
+	"math/big"
 	"go/ast"
 	"go/token"
 	"go/types"
@@ -160,6 +161,20 @@ type VC struct {
 	UsedLemmas map[string]bool
 	nbound int
 	factKeys map[int][]string
+	defs      map[string]Term      // named terms introduced by define
+	heapDef   map[string]heapStore // structure of named heaps (single-cell stores, fresh arrays)
+	freshRefs map[string]bool      // identities returned by allocRef (pairwise distinct)
+	oldVals   map[string]bool      // slice-valued parameters (their arrays were allocated before the call)
+}
+
+// heapStore records how a named heap was obtained from its predecessor.
+type heapStore struct {
+	prev  Term
+	base  Term
+	idx   Term // cell index (absolute) for single-cell stores
+	val   Term
+	fresh bool // whole array at base replaced by the zero array
+	zero  Term
 }
 
 func NewVC(p *Prog, name string, mode string) *VC {
@@ -257,6 +272,10 @@ func (vc *VC) define(prefix string, t Term) Term {
 	}
 	c := vc.fresh(prefix, t.Sort)
 	vc.assumeGlobal(Eq(c, t))
+	if vc.defs == nil {
+		vc.defs = map[string]Term{}
+	}
+	vc.defs[c.S] = t
 	return c
 }
 
@@ -657,7 +676,99 @@ func (vc *VC) allocRef(st *State, what string) Term {
 	na := vc.fresh("alloc", SInt)
 	vc.assumeGlobal(Eq(na, Add(st.alloc, IntLit(1))))
 	st.alloc = na
+	if vc.freshRefs == nil {
+		vc.freshRefs = map[string]bool{}
+	}
+	vc.freshRefs[r.S] = true
 	return r
+}
+
+// resolveRead simplifies a read of cell i of slice s in heap h when h is a chain of syntactically
+// resolvable stores (composite literals, freshly made arrays): read-over-write by syntactic match.
+func (vc *VC) resolveRead(h, s, i Term) (Term, bool) {
+	sl := s
+	if d, ok := vc.defs[s.S]; ok {
+		sl = d
+	}
+	if !strings.HasPrefix(sl.S, "(mk-slice ") {
+		return Term{}, false
+	}
+	base := SBase(sl)
+	idx := simpAdd(SOff(sl), i)
+	for steps := 0; steps < 64; steps++ {
+		hd, ok := vc.heapDef[h.S]
+		if !ok {
+			return Term{}, false
+		}
+		if hd.base.S == base.S {
+			if hd.fresh {
+				return hd.zero, true
+			}
+			if hd.idx.S == idx.S {
+				return hd.val, true
+			}
+			if isIntLit(hd.idx.S) && isIntLit(idx.S) {
+				h = hd.prev
+				continue
+			}
+			return Term{}, false
+		}
+		if vc.freshRefs[hd.base.S] && vc.freshRefs[base.S] {
+			h = hd.prev
+			continue
+		}
+		return Term{}, false
+	}
+	return Term{}, false
+}
+
+// skipFreshStores walks back over stores into arrays allocated during the call when the slice read
+// belongs to a parameter (allocated before the call), so that reads of unchanged caller memory are
+// syntactically the same term before and after local allocations.
+func (vc *VC) skipFreshStores(h, s Term) Term {
+	sl := s
+	if d, ok := vc.defs[s.S]; ok {
+		sl = d
+	}
+	base := SBase(sl).S
+	if !strings.HasPrefix(base, "(s-base ") || !vc.oldVals[base[len("(s-base "):len(base)-1]] {
+		return h
+	}
+	for steps := 0; steps < 256; steps++ {
+		hd, ok := vc.heapDef[h.S]
+		if !ok || !vc.freshRefs[hd.base.S] {
+			return h
+		}
+		h = hd.prev
+	}
+	return h
+}
+
+func isIntLit(s string) bool {
+	if s == "" {
+		return false
+	}
+	for _, c := range s {
+		if c < '0' || c > '9' {
+			return false
+		}
+	}
+	return true
+}
+
+func simpAdd(a, b Term) Term {
+	if a.S == "0" {
+		return b
+	}
+	if b.S == "0" {
+		return a
+	}
+	if isIntLit(a.S) && isIntLit(b.S) {
+		x, _ := new(big.Int).SetString(a.S, 10)
+		y, _ := new(big.Int).SetString(b.S, 10)
+		return BigIntLit(new(big.Int).Add(x, y))
+	}
+	return Add(a, b)
 }
 
 // ---------------------------------------------------------------------------
